@@ -38,6 +38,7 @@ RULE = ('certificate hierarchies of depth 1..4 (ECDSA P-256 / P-384 / P-521 and 
 C = lambda s: rc.comp(8, s)   # noqa
 SITE = [C(b'site')]
 START = datetime.datetime(2020, 1, 1)
+VALIDITY = [START, 10 * 365 * 86400]       # what Hierarchy.issue requests (switched to a tight window around the real 'now' by some cases)
 
 
 def schema_text(depth):
@@ -115,7 +116,7 @@ class Hierarchy:
     def issue(self, lvl, key, issuer_lvl, replace=False, locator=None, signer=None):
         iss = self.keys[issuer_lvl]
         loc = self.cert_names[issuer_lvl] if locator is None else locator
-        name, wire = derive_cert(key.name, 'iss', key.pub, signer or iss.signer(loc), START, 10 * 365 * 86400)
+        name, wire = derive_cert(key.name, 'iss', key.pub, signer or iss.signer(loc), VALIDITY[0], VALIDITY[1])
         if replace:
             self.keys[lvl] = key
             self.cert_names[lvl] = [bytes(c) for c in name]
@@ -388,9 +389,22 @@ def check_single(ctx, rng):
         dev = DEVIATIONS[i % len(DEVIATIONS)]
         # alternate between the data packet and a certificate as the deviating link
         want_link = depth + 1 if (i // len(DEVIATIONS)) % 2 == 0 else rng.randint(1, depth)
+        tight = dev == 'none' and (i // len(DEVIATIONS)) % 2 == 0
+        old_tz = None
+        if tight:
+            # certificates that are valid NOW by a small margin (issued half an hour ago, expiring in half an hour - both UTC, as the
+            # format says) on a machine whose local time zone is hours away from UTC: a valid, retrievable chain all the same
+            import os as _os, time as _t
+            VALIDITY[0] = datetime.datetime.now(datetime.timezone.utc).replace(tzinfo=None, microsecond=0) - datetime.timedelta(minutes=30)
+            VALIDITY[1] = 3600
+            old_tz = _os.environ.get('TZ', '')
+            _os.environ['TZ'] = ['PST8', 'JST-9', 'NST3:30', 'UTC'][(i // (2 * len(DEVIATIONS))) % 4]
+            _t.tzset()
+            ctx.event('chain-valid-by-a-small-margin-under-a-non-utc-local-zone')
         try:
             H, data, served, unserved, nacked, valid, link = build_case(rng, depth, dev, want_link)
         except Exception as e:   # noqa
+            VALIDITY[0], VALIDITY[1] = START, 10 * 365 * 86400
             ctx.report(f'hierarchy-construction-raises:{type(e).__name__}@{raising_site(e)[0]}', f'{e!r}', {'deviation': dev})
             continue
         res = {}
@@ -427,6 +441,14 @@ def check_single(ctx, rng):
             await asyncio.wait_for(main_task, 5)
 
         S = vtime.run(main)
+        VALIDITY[0], VALIDITY[1] = START, 10 * 365 * 86400
+        if old_tz is not None:
+            import os as _os, time as _t
+            if old_tz:
+                _os.environ['TZ'] = old_tz
+            else:
+                _os.environ.pop('TZ', None)
+            _t.tzset()
         w = {'depth': depth, 'deviation': dev, 'link': link, 'key_kinds': [k.kind for k in H.keys], 'expected_valid': valid,
              'fetched': [rc.name_to_uri(list(r), canonical=True) for r in res.get('requests', [])]}
         ctx.case((depth, tuple(k.kind for k in H.keys), dev, link), nontrivial=True, sample=w if i % 25 == 0 else None)
@@ -811,7 +833,7 @@ def check_same_instance(ctx, rng):
             served[tuple(cn)] = cw
             w_ = bytes(make_data(SITE + [C(b'data'), C(b'id' + b'p%02d' % j), C(b'par%d' % j)], MetaInfo(), b'c', k.signer(cn)))
             par.append((w_ if j != 1 else flip_sig(w_), j != 1))
-        plan = ['good-then-ghost', 'ghost-then-good', 'parallel-first', 'parallel-after-good', 'unavailable-then-available', 'sibling-cancelled'][hi % 6]
+        plan = ['good-then-ghost', 'ghost-then-good', 'parallel-first', 'parallel-after-good', 'unavailable-then-available', 'sibling-cancelled', 'timed-out-then-again'][hi % 7]
         storage_kind = ['default', 'memory', 'empty', 'evicting'][(hi // 2) % 4]
         anchor_form = ['bytes', 'bytearray-reused', 'memoryview-reused'][hi % 3]
         res = {}
@@ -839,7 +861,8 @@ def check_same_instance(ctx, rng):
                 out.append((label, ok, exp))
             seq = {'good-then-ghost': [('good', good, True), ('ghost-locator', bad_locator, False), ('forged', forged, False), ('good-again', good, True)],
                    'ghost-then-good': [('ghost-locator', bad_locator, False), ('good', good, True), ('ghost-locator-again', bad_locator, False)],
-                   'parallel-first': [], 'parallel-after-good': [('good', good, True)], 'unavailable-then-available': [], 'sibling-cancelled': []}[plan]
+                   'parallel-first': [], 'parallel-after-good': [('good', good, True)], 'unavailable-then-available': [], 'sibling-cancelled': [],
+                   'timed-out-then-again': []}[plan]
             for label, wire, exp in seq:
                 await one(label, wire, exp)
             if plan == 'sibling-cancelled':
@@ -855,6 +878,20 @@ def check_same_instance(ctx, rng):
                 out[:] = [o for o in out if o[0] != 'first-then-cancelled']
                 await one('good-afterwards', good, True)
                 await one('forged', forged, False)
+            if plan == 'timed-out-then-again':
+                # the application wraps a validation in asyncio.wait_for; it expires while the validator waits for a certificate (network
+                # slower than the caller's patience); the SAME task then validates packets of that signer again: valid chain, retrievable
+                srv.latency = 0.05
+                try:
+                    await asyncio.wait_for(validate(v, good), 0.01)
+                    out.append(('patience-ran-out', True, True))
+                except (asyncio.TimeoutError, asyncio.CancelledError, Exception):   # noqa
+                    ctx.event('validation-given-up-while-waiting-for-a-certificate')
+                srv.latency = 0.001
+                await asyncio.sleep(0.2)
+                await one('good-after-a-timed-out-validation', good, True)
+                await one('forged', forged, False)
+                await one('another-good-packet-of-that-signer', H.data(rng, b'more%d' % hi), True)
             if plan == 'unavailable-then-available' and depth >= 1:
                 # the signer's certificate cannot be had at first (Nack / silence), later it can: the verdict follows what is retrievable
                 # now, not what failed before
@@ -903,7 +940,7 @@ def run(ctx):
     if ctx.shard == 0:
         check_long_run(ctx, rng)
         ctx.need_event('long-lived-validator-with-hundreds-of-signers')
-    need = ['valid-chain-over-a-slow-network', 'verdict-accept', 'verdict-reject', 'history-run', 'anchor-ok', 'anchor-wrong-name', 'same-instance-history', 'other-namespace-chain-named-outside-the-anchor-identity',
+    need = ['chain-valid-by-a-small-margin-under-a-non-utc-local-zone', 'validation-given-up-while-waiting-for-a-certificate', 'valid-chain-over-a-slow-network', 'verdict-accept', 'verdict-reject', 'history-run', 'anchor-ok', 'anchor-wrong-name', 'same-instance-history', 'other-namespace-chain-named-outside-the-anchor-identity',
             'other-namespace-packet-signed-by-look-alike-certificate-key'] + ['deviation-' + d for d in set(DEVIATIONS)]
     for k in need:
         ctx.need_event(k)
